@@ -253,6 +253,8 @@ impl Report {
                 }
             }
             for (i, (m, im)) in model_out.iter().zip(mc.impl_out.iter()).enumerate() {
+                // the model says (from the input alone) that it does not cover this line: nothing to compare
+                if m == "skip-unmodelled" { self.count("model:input-not-covered"); continue; }
                 if m != im {
                     let mut case: Vec<String> = mc.context.clone();
                     case.extend(mc.lines[..=i].iter().cloned());
